@@ -558,9 +558,27 @@ pub fn deep_ops<D: Dec>() -> (Vec<Vec<Op>>, usize) {
             }
         }
     }
-    let g4a = fam.len();
     let traffic: Vec<u8> = if D::IS_SET2 { vec![0x12, 0x1C, 0x1C, 0x1C, 0xF0, 0x1C, 0xE0, 0x75, 0xE0, 0xF0, 0x75, 0xF0, 0x12, 0x58, 0x58, 0xF0, 0x58, 0x77, 0x77, 0xF0, 0x77, 0x14, 0x21, 0xF0, 0x21, 0xF0, 0x14] } else { vec![0x2A, 0x1E, 0x1E, 0x1E, 0x9E, 0xE0, 0x48, 0xE0, 0xC8, 0xAA, 0x3A, 0x3A, 0xBA, 0x45, 0x45, 0xC5, 0x1D, 0x2E, 0xAE, 0x9D] };
-    for r in [0usize, 100, 33, 10, 3] {
+    // two-scale periodic (A^p B^b)^6 for frame-level symbols: long good runs, short fault bursts
+    for a in alpha.iter().take(8) {
+        for b in alpha.iter().take(8) {
+            if a == b { continue; }
+            for p in [256usize, 512, 513, 1024] {
+                for nb in [1usize, 2, 3] {
+                    let mut v = Vec::new();
+                    for _ in 0..6 {
+                        v.extend(std::iter::repeat(*a).take(p));
+                        v.extend(std::iter::repeat(*b).take(nb));
+                    }
+                    v.push(alpha[0]);
+                    v.extend(tails[1].iter().copied());
+                    fam.push(v);
+                }
+            }
+        }
+    }
+    let g4a = fam.len();
+    for r in [0usize, 100, 64, 33, 16, 10, 6, 3] {
         for via_bits in [false, true] {
             for clears in [false, true] {
                 let mut v: Vec<Op> = Vec::new();
